@@ -317,6 +317,23 @@ theorem uncert_denotes (x xe : ℚ) (prec : ℤ) :
   simp only [uncertRecord, absR_eq_abs]
   exact ⟨round_at x _, round_at xe _⟩
 
+/-- **uncert_denotes_perturbed (slack transfer).**  If the argument `y` handed to `round` is not the exact `x·10^(−q)` but within `δ`
+of it (float evaluation of `x * 10**(-q)`: relative error of `pow` ≤ 1 ulp and of the product ≤ ½ ulp give `δ ≤ 2^-51·|x|·10^(−q)`),
+the printed nominal value is within `10^q/2 + δ·10^q` of `x`.  With `δ·10^q = 2^-50·|x|` this is exactly the inequality the oracle checks
+on the real code (`check_uncert_text`): its float slack is a consequence of a stated per-operation error bound, not a free constant.
+The same statement with `xe` for `x` covers the uncertainty. -/
+theorem uncert_denotes_perturbed (x y δ : ℚ) (q : ℤ) (hy : |y - x / (10 : ℚ) ^ q| ≤ δ) :
+    |((roundHalfEven y : ℤ) : ℚ) * (10 : ℚ) ^ q - x| ≤ (10 : ℚ) ^ q / 2 + δ * (10 : ℚ) ^ q := by
+  have hs : (0 : ℚ) < (10 : ℚ) ^ q := zpow_pos (by norm_num) _
+  generalize (10 : ℚ) ^ q = s at *
+  have h := roundHalfEven_spec y
+  generalize ((roundHalfEven y : ℤ) : ℚ) = R at *
+  have e : R * s - x = ((R - y) + (y - x / s)) * s := by field_simp; ring
+  rw [e, abs_mul, abs_of_pos hs]
+  have : |(R - y) + (y - x / s)| ≤ 1 / 2 + δ := le_trans (abs_add_le _ _) (add_le_add h hy)
+  calc |(R - y) + (y - x / s)| * s ≤ (1 / 2 + δ) * s := by gcongr
+    _ = s / 2 + δ * s := by ring
+
 /-- **Divergence witness (model vs. float code, not a defect of the property read with float slack).**  For the doubles
 `2.675` (= 2.67499999999999982…) and `0.01`, one digit: the exact model prints `2.67(1)`; the real code computes
 `2.675 * 100 = 267.5` in floats, `round` → 268, and prints `2.68(1)` (replayed by the harness, corpus `float_near_ties.json`). -/
@@ -535,6 +552,22 @@ theorem table_rows_spec (subs : List (List Char × List Char)) (c : Container) (
   intro i h1 h2
   simp only [List.getElem_map]
   exact (key i (by simpa using h2) (by simpa using h1)).1
+
+/-- **table_rows_ok (success characterisation).** Positional data with one item per substance, distinct substance keys and non-zero
+magnitudes always yields a table: `table_rows_spec` is not satisfied vacuously.  (A shorter container fails with IndexError, a duplicate key
+pairs both rows with the first position.) -/
+theorem table_rows_ok (subs : List (List Char × List Char)) (items : List Cell) (hnd : (subs.map Prod.fst).Nodup)
+    (hlen : items.length = subs.length) (hnz : ∀ c ∈ items, c.mag ≠ 0) :
+    ∃ rows, tableRows subs (.positional items) = .ok rows := by
+  apply mapM_ok_of_forall
+  intro kn hkn
+  obtain ⟨i, hi, rfl⟩ := List.mem_iff_getElem.mp hkn
+  have hk : i < (subs.map Prod.fst).length := by simpa using hi
+  have hcell := table_positional_cell (subs.map Prod.fst) hnd items (by simpa using hlen) i hk
+  simp only [List.getElem_map] at hcell
+  obtain ⟨t, ht⟩ := (number_to_x_ok .html 1 (le_refl 1) (items[i]'(hlen ▸ hi)).mag
+    (hnz _ (List.getElem_mem _)) (items[i]'(hlen ▸ hi)).unit).2
+  exact ⟨(subs[i].2, t), by simp only [hcell, ht, bind, Except.bind, pure, Except.pure]⟩
 
 /-! ## non-vacuity: the hypotheses are satisfiable and the statements say something on concrete inputs -/
 
